@@ -33,4 +33,14 @@ func init() {
 		x.assume(st, app(">=", r, "0"))
 		k(st, Term{r, types.Typ[types.String]})
 	}
+	// mapstructure.Decode(input, output) / json.Unmarshal(data, v): only the output object is written
+	outOnly := func(what string) modelFn {
+		return func(x *Exec, st *State, fr *Frame, in ssa.Instruction, fn *ssa.Function, args []Val, k callCont) {
+			x.used(what + " (writes only the object its second argument points to; result unconstrained)")
+			x.havocArgObjects(st, fr, in, args, map[int]bool{1: true})
+			k(st, x.havocResults(st, "r_"+sanitize(fn.Name()), fn.Signature))
+		}
+	}
+	models["github.com/mitchellh/mapstructure.Decode"] = outOnly("mapstructure.Decode")
+	models["encoding/json.Unmarshal"] = outOnly("json.Unmarshal")
 }
